@@ -24,6 +24,7 @@ import RoModel.Drivers.Cut
 import RoModel.Drivers.MultiB
 import RoModel.Drivers.MultiBC
 import RoModel.Drivers.Share
+import RoModel.Drivers.Race
 namespace Ro.Driver
 
 def handlers : List (String × (Case → String)) := [
@@ -59,7 +60,8 @@ def handlers : List (String × (Case → String)) := [
   ("conn", Drivers.Share.runConn),
   ("sharec", Drivers.Share.runConc),
   ("connc", Drivers.Share.runConc),
-  ("sharex", Drivers.Share.runScenario)
+  ("sharex", Drivers.Share.runScenario),
+  ("race", Drivers.Race.run)
 ]
 
 def runCase (c : Case) : String :=
